@@ -20,13 +20,29 @@ pub enum Item {
     Poly(crate::poly::Cmp),
     /// a runnable fixture of the repository (lib/tests/**), analysed in place so that its imports resolve
     File(std::path::PathBuf),
+    /// a hand-written program for a binder / pattern form the generators do not produce
+    Text(&'static str),
 }
+
+/// binder and pattern forms outside the generators' grammar, each accepted and run by the interpreter
+pub const EXTRA: &[&str] = &[
+    "let Ret = @(intrinsic(ret)) in let Thk = @(intrinsic(thk)) in let Int64 = @(intrinsic(i64)) in (fix (_ : Thk (Int64 -> Ret Int64)) => fn x => ret x) 5",
+    "let Ret = @(intrinsic(ret)) in let Thk = @(intrinsic(thk)) in let Int64 = @(intrinsic(i64)) in (fix ((f; g) : Thk (Int64 -> Ret Int64)) => fn x => ret x) 5",
+    "let Ret = @(intrinsic(ret)) in let Thk = @(intrinsic(thk)) in let Int64 = @(intrinsic(i64)) in (fix (f : Thk (Int64 -> Ret Int64)) => fn _ => ret 1) 5",
+    "let Ret = @(intrinsic(ret)) in let Int64 = @(intrinsic(i64)) in let _ = 1 in ret 2",
+    "let Ret = @(intrinsic(ret)) in let Int64 = @(intrinsic(i64)) in do _ <- ret 1; ret 2",
+    "let Ret = @(intrinsic(ret)) in let Int64 = @(intrinsic(i64)) in let (a; b) = 3 in ret (a, b)",
+    "let Ret = @(intrinsic(ret)) in let Thk = @(intrinsic(thk)) in let Int64 = @(intrinsic(i64)) in let f : Thk (Int64 * Int64 -> Ret Int64) = { fn (a, _) => ret a } in ! f (1, 2)",
+    "let Ret = @(intrinsic(ret)) in let Unit = @(intrinsic(unit)) in let u : Unit = () in let () = u in ret 1",
+    "let Ret = @(intrinsic(ret)) in let Thk = @(intrinsic(thk)) in let Int64 = @(intrinsic(i64)) in let t : Thk (Thk (Ret Int64)) = { { ret 1 } } in do g <- ret t; ! ! g",
+];
 impl Item {
     fn text(&self) -> String {
         match self {
             | Item::Core(p) => crate::print::program(&p.body, &p.root, &Cfg::default()).0,
             | Item::Poly(c) => crate::poly::program(c, false),
             | Item::File(p) => std::fs::read_to_string(p).unwrap_or_default(),
+            | Item::Text(t) => t.to_string(),
         }
     }
     fn path(&self) -> Option<&std::path::Path> {
@@ -38,7 +54,7 @@ impl Item {
     fn stdin(&self) -> &'static [u8] {
         match self {
             | Item::Core(p) => p.stdin,
-            | Item::Poly(_) | Item::File(_) => b"",
+            | Item::Poly(_) | Item::File(_) | Item::Text(_) => b"",
         }
     }
     fn origin(&self) -> String {
@@ -46,6 +62,7 @@ impl Item {
             | Item::Core(p) => p.origin.to_string(),
             | Item::Poly(_) => "polymorphism".into(),
             | Item::File(p) => format!("repository fixture {}", p.display()),
+            | Item::Text(_) => "hand-written binder form".into(),
         }
     }
 }
@@ -63,6 +80,7 @@ impl Lowered {
         progs.extend(crate::poly::universe(tier).into_iter().map(Item::Poly));
         // the repository's own runnable fixtures (std-library style programs: packages, named products,
         // telescopes, effects), except the ones that must fail
+        progs.extend(EXTRA.iter().map(|t| Item::Text(t)));
         for p in crate::corpus::repo_sources() {
             let s = p.display().to_string();
             if s.contains("/lib/tests/") && !s.contains("/fail/") && !s.contains("/warn/") && !s.ends_with(".zyi") {
